@@ -166,16 +166,28 @@ func (ef *Filter) Process(ctx context.Context, e *eventlogger.Event) (*eventlogg
 	opts := make([]Option, 0, 3)
 	var optWrapper wrapping.Wrapper
 	if i, ok := e.Payload.(EventWrapperInfo); ok {
+		// The event's wrapper is derived from the filter's wrapper once, for
+		// the whole event.  When the event brings no salt or info of its own,
+		// the filter's are used: take them now, together with the wrapper, so
+		// a Rotate while the event is being processed cannot pair this wrapper
+		// with the salt and info of the next one.
+		salt, info := i.HmacSalt(), i.HmacInfo()
 		ef.l.RLock()
 		w, err := NewEventWrapper(ctx, ef.Wrapper, i.EventId())
+		if salt == nil {
+			salt = append([]byte{}, ef.HmacSalt...)
+		}
+		if info == nil {
+			info = append([]byte{}, ef.HmacInfo...)
+		}
 		ef.l.RUnlock()
 		if err != nil {
 			return nil, fmt.Errorf("%s: %w", op, err)
 		}
 		optWrapper = w
 		opts = append(opts, WithWrapper(optWrapper))
-		opts = append(opts, WithInfo(i.HmacInfo()))
-		opts = append(opts, WithSalt(i.HmacSalt()))
+		opts = append(opts, WithInfo(info))
+		opts = append(opts, WithSalt(salt))
 	}
 
 	// depending on what filter operations are initialized, a wrapper may or may
